@@ -97,6 +97,14 @@ def typed_queries():
     qs.append(("select g, sum(si + bi), max(d + si) from n group by g", "typed-agg"))
     qs.append(("select x.g, y.g from n x join n y on x.si = y.bi", "typed-join"))
     qs.append(("select x.g, y.g from n x left join n y on x.d = y.si", "typed-join"))
+    for col in ("si", "bi", "d", "g"):
+        # arithmetic with an INT literal that a rewrite may drop: the INT result type must be kept for every column type
+        qs.append((f"select {col} + 0, {col} * 1, {col} - 0, 0 - {col}, {col} * -1, {col} + {col} from n", "typed-arith"))
+        qs.append((f"select g, sum({col} + 0), max({col} * 1), min(0 - {col}) from n group by g", "typed-arith"))
+    # explicit and implicit conversions between the numeric types (the array that is produced must have the static type)
+    qs.append(("select cast(si as bigint), cast(si as int), cast(g as bigint), cast(g as smallint), cast(bi as double), cast(si as double), cast(g as double) from n", "typed-cast"))
+    qs.append(("select si + bi, si + g, g + bi, si + d, bi + d, g * d from n", "typed-cast"))
+    qs.append(("select g, max(cast(si as bigint)), sum(cast(g as smallint)) from n group by g", "typed-cast"))
     qs.append(("select sum(a) over (), a from t1", "window"))
     qs.append(("select a, b, sum(b) over (), count(*) over () from t1", "window"))
     return qs
@@ -118,8 +126,21 @@ def setup_sql(schema, tables, split):
 
 # ---------------------------------------------------------------- queries
 
-def q(sql, okeys=None, det=True, sqlite=True, feat=(), level=1):
-    return {"sql": sql, "okeys": okeys, "det": det, "sqlite": sqlite, "feat": list(feat), "level": level}
+def q(sql, okeys=None, det=True, sqlite=True, feat=(), level=1, seq=None):
+    """seq = name of the table whose (unselected) key orders the output: the whole row sequence is compared on databases
+    where that key is unique (see seq_applies), the multiset elsewhere."""
+    return {"sql": sql, "okeys": okeys, "det": det, "sqlite": sqlite, "feat": list(feat), "level": level, "seq": seq}
+
+
+def determined(x, dbname):
+    """is the result (as a multiset / key sequence) determined on this database? LIMIT under an ORDER BY on an unselected key
+    is only where that key is unique"""
+    return x["det"] and not (x.get("seq") and "limit" in x["feat"] and not seq_applies(x, dbname))
+
+
+def seq_applies(x, dbname):
+    schema = dbname.split(":")[0]
+    return (x.get("seq") == "t1" and schema in ("keyed", "pkpk")) or (x.get("seq") == "t2" and schema == "pkpk")
 
 
 PROJ1 = [                         # (select list, number of columns, tag)
@@ -189,6 +210,19 @@ def queries(tier):
             for lim in [None, "limit 0", "limit 1", "limit 2", "limit 5", "offset 1", "limit 1 offset 1", "limit 2 offset 3", "limit 0 offset 1"]:
                 sql = f"select {p} from t1" + (f" where {w}" if w else "") + f" order by {keys}" + (f" {lim}" if lim else "")
                 out.append(q(sql, okeys=okeys, feat=["order"] + (["limit"] if lim else [])))
+    # order by a key that is not selected (unique in the keyed schemas: the whole output sequence is determined there;
+    # on disk the optimizer drops the ORDER BY and the scan has to merge the row-sets by a key it is not asked to return)
+    for tail in ["", " desc", " limit 2", " limit 2 offset 1", " desc limit 3"]:
+        out.append(q(f"select b from t1 order by a{tail}", seq="t1", feat=["order-unselected"] + (["limit"] if "limit" in tail else [])))
+    out.append(q("select b from t1 where b > 0 order by a", seq="t1", feat=["order-unselected"]))
+    out.append(q("select b + 1, b from t1 order by a", seq="t1", feat=["order-unselected"]))
+    # window functions below an ORDER BY (no SQLite comparison: the window operator ignores PARTITION BY / ORDER BY)
+    out.append(q("select a, b, sum(b) over () from t1 order by b, a", okeys=[(1, False), (0, False)], sqlite=False, feat=["window-order"]))
+    out.append(q("select a, row_number() over () from t1 order by a desc", okeys=[(0, True)], sqlite=False, feat=["window-order"]))
+    out.append(q("select b, count(a) over () from t1 where b > 0 order by b limit 3", okeys=[(0, False)], det=False, sqlite=False, feat=["window-order"]))
+    # LIMIT/OFFSET without ORDER BY: which rows come back is not determined, how many is (several chunks / row-sets on disk)
+    for lim in ["limit 2 offset 2", "limit 1 offset 3", "limit 5 offset 2", "offset 2", "limit 1 offset 1", "limit 3"]:
+        out.append(q(f"select count(*) from (select a from t1 {lim}) s", feat=["limit-count", "derived"], level=2))
     # order by a non-total key without limit: sequence compared on the key only
     out.append(q("select a, b from t1 order by b", okeys=[(1, False)], feat=["order"]))
     out.append(q("select a, b from t1 order by b desc", okeys=[(1, True)], feat=["order"]))
